@@ -255,6 +255,23 @@ class Inliner:
             name = f.id
             t = self.repo.funcs.get(f"{fi.module.name.split('.')[-1]}:{name}")
             target = t if t is not None and t.cls is None and t.module is fi.module else None
+            if target is None and name.startswith("_") and not name.startswith("__"):
+                # a private helper imported from another module of the package (`from photon_weave._math.ops import _normalise_ket`),
+                # at module level or inside the calling function
+                origin = fi.module.import_alias.get(name)
+                if origin is None:
+                    own0 = getattr(fi, "orig", None) or fi.node
+                    for imp in ast.walk(own0):
+                        if isinstance(imp, ast.ImportFrom) and imp.module and any((a_.asname or a_.name) == name for a_ in imp.names):
+                            real = next(a_.name for a_ in imp.names if (a_.asname or a_.name) == name)
+                            base = imp.module if imp.level == 0 else self.repo._resolve_relative(fi.module, imp)
+                            origin = f"{base}.{real}"
+                if origin and origin.startswith("photon_weave.") and "." in origin:
+                    modname, fname = origin.rsplit(".", 1)
+                    t2 = self.repo.funcs.get(f"{modname.split('.')[-1]}:{fname}")
+                    if t2 is not None and t2.cls is None and t2.module.name == modname:
+                        target = t2
+                        name = fname
             if target is None:
                 # a parameterless closure defined inside the calling function and bound once: `def holding(): return [...]`
                 own = getattr(fi, "orig", None) or fi.node
